@@ -19,7 +19,8 @@ import re
 from . import common
 from .common import cbool
 
-THEOREMS = [
+THEOREMS = ["tree_counts"]
+THEOREMS_FINAL = [
     "model_meets_spec", "counts_correct", "reject_iff", "reject_reason_sound",
     "no_reject_when_off", "callback_once_in_order", "call_styles_equal",
     "rpc_binds_like_python_partial", "rpc_reject_refuted",
@@ -112,7 +113,8 @@ def instantiate(shape, marks, tags=None):
 
 
 def nleaves(s):
-    return 1 if s == "L" or s[0] == "L" else sum(nleaves(k) for k in (s[2] if s[0] == "N" and isinstance(s[2], tuple) else s[3]))
+    """Number of leaves of a shape."""
+    return 1 if s == "L" else sum(nleaves(k) for k in s[2])
 
 
 def flatten(t, path=()):
@@ -275,7 +277,7 @@ def expected_positional_text(r, a, g):
     return "takes %s positional argument%s but %d %s given" % (exp, plural, g, "was" if g == 1 else "were")
 
 
-def classify_message(msg, method="f"):
+def classify_message(msg, method="f", name_id=name_id):
     """TypeError text -> Coq `res` term (ROther when it is not one of the four
     loud failures with a coherent rendering)."""
     pre = "%s() " % method
@@ -748,7 +750,7 @@ def run(ck):
                         elif style == "dict":
                             r0 = call_client(c0, rec0, [dict(vals)], {})
                         else:
-                            r0 = call_client(c0, rec0, [], {"Wrapper": dict(vals)})
+                            r0 = call_client(c0, rec0, [], {client_param_name(c0): dict(vals)})
                     except Exception as e:   # noqa
                         r0 = ("other", repr(e), 0)
                     ck.count("client:unwrap-off-" + style)
@@ -759,18 +761,26 @@ def run(ck):
                                          "with unwrap=False, f(<%s holding %r>) does not send the request that "
                                          "f(**%r) sends with unwrapping on (%s)" % (style, vals, vals, r0[:2] if r0[0] != "sent" else "different XML"),
                                          {"kind": "client-unwrap", "tree": t, "named": named, "values": vals, "style": style})
-        # unwrap off: the operation takes exactly one parameter; surplus / unknown are refused
+        # unwrap off: the operation takes exactly one parameter (named after the wrapper element)
         full0 = ("L", 1, False)
         cp0 = c_params([(1, p[1], p[2]) for p in got0])
+        wname = client_param_name(c0)
+
+        def nid0(s):
+            return 1 if s == wname else name_id(s)
+        arity_calls = (([{}, {}], {}, [1, 2], []),
+                       ([{}], {"u1": {}}, [1], [(UNKNOWN_BASE + 1, 3)]),
+                       ([{}], {wname: {}}, [1], [(1, 3)]),
+                       ([], {}, [], []),
+                       ([], {wname: {}}, [], [(1, 3)]))
         for extra in (True, False):
             c0.set_options(extraArgumentErrors=extra)
-            for a0, k0, ia, ik in ((["x", "y"], {}, [1, 2], []), (["x"], {"u1": "z"}, [1], [(UNKNOWN_BASE + 1, 3)]),
-                                   (["x"], {"Wrapper": "z"}, [1], [(1, 3)]), ([], {}, [], [])):
-                r = call_client(c0, rec0, [{} if x == "x" else x for x in a0], dict(k0))
-                cres = "CSent" if r[0] == "sent" else "(CErr %s)" % (classify_message(r[1]) if r[0] == "TypeError" else "ROther")
-                if len(got0) == 1 and name_id(client_param_name(c0)) == 999:
-                    # the single parameter is called "Wrapper": interned as parameter 1
-                    cres = cres.replace("999", "1")
+            for a0, k0, ia, ik in arity_calls:
+                if len(got0) != 1:
+                    break
+                r = call_client(c0, rec0, list(a0), dict(k0))
+                cres = "CSent" if r[0] == "sent" else "(CErr %s)" % (
+                    classify_message(r[1], name_id=nid0) if r[0] == "TypeError" else "ROther")
                 ccases.append("mkCC %s %s %s %s %s %s" % (cbool(extra), c_tree(full0), cp0, c_values(ia), c_kw(ik), cres))
                 cmeta.append((full0, named, ia, ik, extra, r[:2]))
                 ck.seen(("client0", si, tuple(ia), tuple(ik), extra), nontrivial=False)
